@@ -64,12 +64,23 @@ Definition mon_backing (c : c06_case) : bool :=
 Definition mon_ghost (c : c06_case) : bool :=
   zlist_eqb (vplus (a_bal_fee (c_post (k_amm c))) (k_claimed c)) (k_recv c).
 
-(* 3. claim once: after a successful claim every claimed position has nothing claimable, and the same
-      claim repeated immediately pays nothing *)
+(* 3. claim once: after a successful claim the position claimed last in the message (nothing happened
+      after its claim) has nothing claimable; the same message repeated at once pays nothing when it
+      addresses a single position.  When it addresses n > 1 positions, the claims of the later ones
+      re-inject their forfeited dust (< 1 coin each) into the accumulator, which is activity between
+      the first and the second claim of the earlier ones: the repeat may then pay that recycled
+      dust, less than n coins per denom in total, and nothing more *)
+Definition all_same (ids : list Z) : bool :=
+  match ids with [] => true | i :: r => forallb (fun j => j =? i) r end.
 Definition mon_claim_once (c : c06_case) : bool :=
   match c_op (k_amm c), c_res (k_amm c) with
   | OClaim _ ids, Ok _ =>
-      forallb (fun i => is_zero_ok (lookup (k_cl_post c) i)) ids && is_zero_ok (k_again c)
+      is_zero_ok (lookup (k_cl_post c) (last ids 0)) &&
+      (if all_same ids then is_zero_ok (k_again c)
+       else match k_again c with
+            | Some (Ok v) => forallb (fun x => (0 <=? x) && (x <? Z.of_nat (length ids))) v
+            | _ => false
+            end)
   | _, _ => true
   end.
 
